@@ -11,6 +11,11 @@ use std::collections::{BTreeMap, BTreeSet};
 const PREFIXES: &[&str] = &[
     "", "", "", "    ", "\t", "++ ", "-- ", "@@ -1 +1 @@ ", "let x = ", "# ", "日本語 ", "é ", "🙂 ", "\"q\" ", "a\u{0301} ",
 ];
+// quoted literals with escapes (the tokenizer treats string literals specially): ASCII and multi-byte characters after the backslash
+const LITERALS: &[&str] = &[
+    " \"a\\nb\"", " \"C:\\été\\data\"", " '\\é'", " `\\🙂x`", " \"\\中\"", " 'it\\'s'", " \"unterminated \\", " \"\\\\\"", " '\\a\u{0301}'", " \"é\\\"",
+];
+static NO_OPEN_QUOTES: std::sync::atomic::AtomicBool = std::sync::atomic::AtomicBool::new(false);
 const AUTHORS: &[&str] = &["human", "aaaaaaaaaaaaaaa1", "bbbbbbbbbbbbbbb2", "ccccccccccccccc3"];
 
 struct Line {
@@ -28,6 +33,14 @@ fn fresh_line2(rng: &mut Rng, n: &mut usize, author: &str, no_long: bool) -> Lin
     *n += 1;
     let pre = *rng.pick(PREFIXES);
     let mut text = format!("{}tok{:05}_{} v{}", pre, *n, &author[..2], rng.below(1000));
+    if rng.chance(1, 6) {
+        let lit = *rng.pick(LITERALS);
+        // finding D51: a quote that is never closed on its line (the literal is lexed across the line break)
+        let open = lit.contains("unterminated") || lit.ends_with("\\\"");
+        if !(open && NO_OPEN_QUOTES.load(std::sync::atomic::Ordering::Relaxed)) {
+            text.push_str(lit);
+        }
+    }
     if rng.chance(1, 60) && !no_long {
         text.push(' ');
         text.push_str(&"x".repeat(*rng.pick(&[300usize, 5000, 40000])));
@@ -98,6 +111,7 @@ pub fn run(seed: u64, n: usize, extra: &[String]) -> String {
     let no_long = off.contains("tracker_long_lines");
     let no_large = off.contains("tracker_large_inputs");
     let no_noeol_append = off.contains("tracker_noeol_append");
+    NO_OPEN_QUOTES.store(off.contains("tracker_unterminated_quote"), std::sync::atomic::Ordering::Relaxed);
     let mut viol: Vec<serde_json::Value> = Vec::new();
     let mut sigs: BTreeSet<String> = BTreeSet::new();
     let mut counters: BTreeMap<&str, u64> = BTreeMap::new();
@@ -111,7 +125,7 @@ pub fn run(seed: u64, n: usize, extra: &[String]) -> String {
         let arbitrary = case % 3 == 2;
         if arbitrary {
             // ---- arbitrary UTF-8 pairs with arbitrary prior attribution sets: totality and bounds only
-            let alphabet: Vec<&str> = vec!["a", "b", " ", "\n", "\r\n", "\t", "é", "中", "🙂", "a\u{0301}", "x", "0", "++ ", "@@"];
+            let alphabet: Vec<&str> = vec!["a", "b", " ", "\n", "\r\n", "\t", "é", "中", "🙂", "a\u{0301}", "x", "0", "++ ", "@@", "\"", "'", "`", "\\", "\\é", "\"\\中\""];
             let mk = |rng: &mut Rng| {
                 let len = *rng.pick(&[0usize, 1, 2, 5, 20, 80, 400]);
                 let mut s = String::new();
